@@ -18,7 +18,7 @@ RULE = ("cases: lanczos_tridiag called directly on symmetric PSD matrices {full 
         "and A itself at full Krylov rank; per member / probe of a batch: wherever the BUDGET reaches that member's Krylov dimension its "
         "residual A Q - Q T vanishes (a run cut short because another member broke down does not satisfy this); "
         " the lanczos.* hook events give the number of iterations kept and enforce the step bound. "
-        "distinct key = (clause, matrix family, start-vector kind, budget relative to n, dtype, batch rank) [added: lanczos_tridiag_to_diag driven directly with tridiagonal matrices that have negative eigenvalues (V diag(e) V^T = positive part of T); jitter amount: at full Krylov rank R R^T - A = tridiagonal_jitter * min diag(T) I with T recomputed from the recorded start vector] [round 4: the root that a Lanczos inverse-root run leaves in the operator's cache is judged too (shape, compression identity); orthogonality tolerance max(base, 20 eps ||A|| / min beta_j) when the smallest residual norm is above the library's 1e-6 breakdown threshold]")
+        "distinct key = (clause, matrix family, start-vector kind, budget relative to n, dtype, batch rank) [added: lanczos_tridiag_to_diag driven directly with tridiagonal matrices that have negative eigenvalues (V diag(e) V^T = positive part of T); jitter amount: at full Krylov rank R R^T - A = tridiagonal_jitter * min diag(T) I with T recomputed from the recorded start vector] [round 4: the root that a Lanczos inverse-root run leaves in the operator's cache is judged too (shape, compression identity); orthogonality tolerance max(base, 20 eps ||A|| / min beta_j) when the smallest residual norm is above the library's 1e-6 breakdown threshold] [round 6: well-conditioned full-rank consumer cases also run at overall matrix scales 1e-5 / 1e-4 / 1e2]")
 ASSUMPTIONS = ["float64 dense products are the reference", "tolerances scale with ||A||: 1e-8 (f64) / 2e-3 (f32), calibrated on the unchanged tree (1e-15 / 7e-7)"]
 REQUIRED_STATS = ("runs",)
 
